@@ -819,6 +819,59 @@ def r64(ctx, res):
                       construct="Pyramid.height formula")
 
 
+def r65_measures_read_primary_state(ctx, res):
+    """R6.5: a class whose objects can be changed by item assignment (`seg[0] = p`) keeps derived fields that the assignment
+    does not refresh (Segment.line).  A measure must be computed from the fields the assignment writes -- reading a derived
+    field returns the measure of the object as it was constructed (C20 quantifies over coordinate / item assignment)."""
+    from .c15 import method_reads
+    n = 0
+    for c in ctx.repo.classes():
+        if ".visualization" in c.module.name:
+            continue
+        si = c.methods.get("__setitem__")
+        init = c.methods.get("__init__")
+        if si is None or init is None or si.self_name is None:
+            continue
+        def stored(m):
+            out = set()
+            for x in walk_local(m.node):
+                if isinstance(x, (ast.Assign, ast.AugAssign)):
+                    for t in (x.targets if isinstance(x, ast.Assign) else [x.target]):
+                        b = t
+                        while isinstance(b, ast.Subscript):
+                            b = b.value
+                        if isinstance(b, ast.Attribute) and isinstance(b.value, ast.Name) and b.value.id == m.self_name:
+                            out.add(b.attr)
+                if isinstance(x, ast.Call) and isinstance(x.func, ast.Name) and x.func.id == "setattr" and x.args \
+                        and isinstance(x.args[0], ast.Name) and x.args[0].id == m.self_name:
+                    out.add("*")
+            return out
+        W = stored(si)
+        if "*" in W:
+            continue  # setattr(self, name, value): every coordinate field may be written
+        derived = stored(init) - W
+        if not derived:
+            continue
+        for mname in ("length", "area", "volume", "height"):
+            m = c.methods.get(mname)
+            if m is None:
+                continue
+            n += 1
+            rd = {r[5:] for r in method_reads(ctx, m) if r.startswith("self.")}
+            bad = sorted(rd & derived)
+            res.ob("R6.5", m.where(), "%s.%s reads the fields item assignment writes" % (c.name, mname), not bad,
+                   "reads %s (written by __setitem__: %s)" % (sorted(rd), sorted(W)) if not bad else
+                   "reads %s, which %s.__setitem__ does not refresh" % (bad, c.name))
+            if bad:
+                res.violation("R6.5", m, m.node,
+                              "%s.%s is computed from `%s`, a field derived in the constructor that %s.__setitem__ (item assignment, "
+                              "`obj[i] = p`) leaves at its old value while it replaces %s: after an item assignment the measure is that "
+                              "of the object as it was constructed" % (c.name, mname, ", ".join(bad), c.name, sorted(W)),
+                              construct="%s.%s reads derived %s" % (c.name, mname, ",".join(bad)))
+    if n == 0:
+        res.note("no class with item assignment keeps derived fields beside a measure; R6.5 has no instance")
+
+
 def run(ctx, res):
     res.explanation = (
         "Four structural necessary conditions of C06, decided for all shapes: every measure function has the right "
@@ -837,4 +890,5 @@ def run(ctx, res):
     ctx.require(res, "R6.2", c, 3, "vertex-cycle loops")
     r63(ctx, res)
     r64(ctx, res)
+    r65_measures_read_primary_state(ctx, res)
     res.undecided_ob("Heron's formula / centroid fan numerically exact; independence from vertex and face order (C09); centroid")
